@@ -872,6 +872,12 @@ int KSI_SignatureBuilder_openFromAggregationResp(const KSI_AggregationResp *resp
 		goto cleanup;
 	}
 
+	if (status == NULL) {
+		/* A missing status converts to KSI_OK below: it must not be read as success. */
+		KSI_pushError(ctx, res = KSI_INVALID_FORMAT, "Aggregation response is missing the status.");
+		goto cleanup;
+	}
+
 	res = KSI_convertAggregatorStatusCode(status);
 	/* Check for the status of the response. */
 	if (res != KSI_OK) {
